@@ -53,7 +53,7 @@ SLOTS = ['labile', 'static', 'unknown', 'nterm', 'r0', 'iv', 'cterm', 'rlast',
 
 def describe(tier):
     return {'max_tokens': 5 if tier == 'thorough' else 4, 'alphabet': TOKENS,
-            'mutation_bases': ['K', 'PEK'] if tier == 'thorough' else ['PEK'], 'pump_max_repeat': 8,
+            'mutation_bases': ['K', 'PEK'] if tier == 'thorough' else ['PEK'], 'pump_max_repeat': 8, 'pump_extreme_repeat': 40,
             'deferred_corpus': CORPUS_MUST_RAISE, 'slots': SLOTS}
 
 
@@ -229,6 +229,13 @@ def check(case, ctx):
         for reps in itertools.product(range(1, 9), repeat=len(toks)):
             if all(r == 1 for r in reps) or (len(toks) == 3 and not any(r in (1, 8) for r in reps)):
                 continue  # unrepeated strings belong to the language space; triples: at least one extreme count
+            s = ''.join(t * r for t, r in zip(toks, reps))
+            acc += _one(p, ctx, s) == 'A'
+            n += 1
+        # the upper end of the quantifier: 40 repetitions of a token (strings of up to 120 tokens)
+        for reps in itertools.product((1, 40), repeat=len(toks)):
+            if all(r == 1 for r in reps):
+                continue
             s = ''.join(t * r for t, r in zip(toks, reps))
             acc += _one(p, ctx, s) == 'A'
             n += 1
